@@ -3,6 +3,8 @@ package checks
 import (
 	"errors"
 	"fmt"
+	"strconv"
+	"strings"
 	"testing"
 
 	"github.com/c4pt0r/kvql"
@@ -26,6 +28,9 @@ func init() { registerReplay("c04", func(c *c04Case) string { m, _, _ := checkC0
 var c04Pairs = []lib.Pair{
 	{K: "a", V: "0"}, {K: "ab", V: "3"}, {K: "b", V: "10"}, {K: "ba", V: "-2"},
 	{K: "c", V: "0.5"}, {K: "ca", V: "2.25"}, {K: "d", V: "1.5"},
+	// values that are not exactly representable: (x * 3) * 7 and x * 21, (x +
+	// 1) + 2 and x + 3 differ in the last place for them
+	{K: "e", V: "0.1"}, {K: "ea", V: "0.3"}, {K: "f", V: "0.7"}, {K: "fa", V: "2.675"},
 }
 
 func parseSelect(q string) (*kvql.SelectStmt, error) {
@@ -233,6 +238,33 @@ func c04Run(t lib.Fataler, c *c04Case, enum bool, extra ...string) {
 	}
 }
 
+// c04BoundaryLiteral: the value of e on one of the pairs (chosen by n) as a
+// literal, when it is a non-negative number that can be written down.
+func c04BoundaryLiteral(e *lib.Node, n int) *lib.Node {
+	for i := range c04Pairs {
+		p := c04Pairs[(i+n)%len(c04Pairs)]
+		v, err := lib.Eval(e, &lib.Env{K: p.K, V: p.V})
+		if err != nil {
+			continue
+		}
+		switch x := v.(type) {
+		case int64:
+			if x >= 0 {
+				return lib.Int(x)
+			}
+		case float64:
+			if x >= 0 && x < 1e15 {
+				t := strconv.FormatFloat(x, 'f', -1, 64)
+				if !strings.Contains(t, ".") {
+					t += ".0"
+				}
+				return lib.Float(t)
+			}
+		}
+	}
+	return nil
+}
+
 var c04True = func() *lib.Node { return lib.Bin("=", lib.Int(1), lib.Int(1)) }
 
 // TestC04Arith: every arithmetic shape of depth <= 2 over the constant pool
@@ -253,6 +285,13 @@ func TestC04Arith(t *testing.T) {
 		} else {
 			w := lib.Bin(">", lib.Call("float", lib.Value()), e)
 			c04Run(t, &c04Case{E: lib.Key(), W: w, Pairs: c04Pairs}, true, tag, "in-where")
+		}
+		// on the boundary: `e = v` and `e >= v` with v the value that e has on
+		// one of the pairs - a rewrite that moves e by one unit in the last
+		// place (only done below a Boolean root, say) changes the rows selected
+		if lit := c04BoundaryLiteral(e, idx); lit != nil {
+			op := []string{"=", ">=", "<="}[idx%3]
+			c04Run(t, &c04Case{E: lib.Key(), W: lib.Bin(op, e.Clone(), lit), Pairs: c04Pairs}, true, tag, "in-where-on-the-boundary")
 		}
 	}
 	zeroLit := func(n *lib.Node) bool { return (n.K == "int" && n.I == 0) || (n.K == "float" && n.F == 0) }
